@@ -15,6 +15,7 @@
 import NxsModel.Gen.CfgShape
 import NxsModel.Config
 import NxsModel.Lemmas.Config
+import NxsModel.Lemmas.R7Config
 import NxsModel.Lifecycle
 import NxsModel.Lemmas.Lifecycle
 namespace Nxs.C11
@@ -246,5 +247,228 @@ example :
     (afterA ⟨[false, false, false], [0, 0, 0]⟩ false 3 (Desc.plain 3) hist).dev.en = [false, true, true] ∧
     (step (afterA ⟨[false, false, false], [0, 0, 0]⟩ false 3 (Desc.plain 3) hist) .channelsWrite).1.dev.en
       = [true, true, false] := by decide +kernel
+
+/-! ## Round 7 additions: the client's view as a fold over the ACCEPTED requests only
+
+  `Config.cliSpec` (Lemmas/R7Config.lean) is the client side written without the device, the bytes and the frames; the
+  theorems below hold for histories of any length with every request acknowledged, rejected (any code), applied with
+  the ACK lost, or lost. -/
+
+/-- REFINEMENT: after ANY history, whatever the device does with each request (and with or without ACK support), the
+    client state is the fold of the device-free specification `cliSpec` — in particular the client's view does not
+    depend on the device's state at all, only on the calls and on which requests were seen as acknowledged. -/
+theorem client_is_fold (d0 : Device) (flags : Nat) (ops : List Op) (hd : WFDev d0) :
+    (after d0 flags ops).1 = ops.foldl cliSpec (Client.init d0 flags) :=
+  run_client (init_inv d0 flags hd) ops
+
+/-- the enable state the client reports IS the vector that was requested when the LAST acknowledged enable request was
+    sent: for every prefix `ops1`, an acknowledged enable request, and every suffix `ops2` in which no enable request is
+    acknowledged (setter calls, rejected / lost / half-lost writes, in any number and order), `ch_is_enabled` and the
+    description copy still report the requested vector of that moment.  Likewise for the dividers. -/
+theorem view_is_last_accepted_request (d0 : Device) (flags : Nat) (ops1 ops2 : List Op) (o : Outcome) (hd : WFDev d0)
+    (ha : Info.ackSupported flags = true) (hn : d0.en.length ≠ 0) :
+    ((∀ op ∈ ops2, NoAckEn op) →
+      (after d0 flags (ops1 ++ .write o .ack :: ops2)).1.enNow = (after d0 flags ops1).1.enNew ∧
+      (after d0 flags (ops1 ++ .write o .ack :: ops2)).1.copyEn = (after d0 flags ops1).1.enNew) ∧
+    (Info.divSupported flags = true → (∀ op ∈ ops2, NoAckDiv op) →
+      (after d0 flags (ops1 ++ .write .ack o :: ops2)).1.divNow = (after d0 flags ops1).1.divNew ∧
+      (after d0 flags (ops1 ++ .write .ack o :: ops2)).1.copyDiv = (after d0 flags ops1).1.divNew) := by
+  have hf := foldl_fixed (Client.init d0 flags) ops1
+  have hn1 : (ops1.foldl cliSpec (Client.init d0 flags)).n ≠ 0 := by rw [hf.1]; exact hn
+  have ha1 : (ops1.foldl cliSpec (Client.init d0 flags)).ackSupported = true := hf.2.2.trans ha
+  refine ⟨fun h2 => ?_, fun hs h2 => ?_⟩
+  · rw [client_is_fold d0 flags _ hd, client_is_fold d0 flags ops1 hd, List.foldl_append, List.foldl_cons]
+    have h := foldl_noackEn (cliSpec (ops1.foldl cliSpec (Client.init d0 flags)) (.write o .ack)) ops2
+      ((cliSpec_fixed _ _).2.2.trans ha1) h2
+    have hk := cliSpec_ackEn (ops1.foldl cliSpec (Client.init d0 flags)) o hn1
+    exact ⟨h.1.trans hk.1, h.2.trans hk.2⟩
+  · rw [client_is_fold d0 flags _ hd, client_is_fold d0 flags ops1 hd, List.foldl_append, List.foldl_cons]
+    have h := foldl_noackDiv (cliSpec (ops1.foldl cliSpec (Client.init d0 flags)) (.write .ack o)) ops2
+      ((cliSpec_fixed _ _).2.2.trans ha1) h2
+    have hk := cliSpec_ackDiv (ops1.foldl cliSpec (Client.init d0 flags)) o hn1 (hf.2.1.trans hs)
+    exact ⟨h.1.trans hk.1, h.2.trans hk.2⟩
+
+/-- … and if no enable (divider) request of the history was ever acknowledged, the client still reports the state the
+    device had at connect time. -/
+theorem view_is_initial_if_never_accepted (d0 : Device) (flags : Nat) (ops : List Op) (hd : WFDev d0)
+    (ha : Info.ackSupported flags = true) :
+    ((∀ op ∈ ops, NoAckEn op) → (after d0 flags ops).1.enNow = d0.en ∧ (after d0 flags ops).1.copyEn = d0.en) ∧
+    ((∀ op ∈ ops, NoAckDiv op) → (after d0 flags ops).1.divNow = d0.div ∧ (after d0 flags ops).1.copyDiv = d0.div) := by
+  rw [client_is_fold d0 flags ops hd]
+  exact ⟨fun h => foldl_noackEn _ ops ha h, fun h => foldl_noackDiv _ ops ha h⟩
+
+/-- a request the device rejects or never receives changes NOTHING at the device: over any suffix of calls whose
+    requests are all rejected or lost (any number, any order, any setter calls between) the device keeps the state it
+    had — together with `view_is_last_accepted_request`: neither side advances. -/
+theorem unapplied_requests_leave_device (d0 : Device) (flags : Nat) (ops1 ops2 : List Op)
+    (h2 : ∀ op ∈ ops2, NoApply op) :
+    (after d0 flags (ops1 ++ ops2)).2.1 = (after d0 flags ops1).2.1 := by
+  unfold after
+  rw [Config.run_append]
+  exact run_noapply _ _ ops2 h2
+
+/-- the F13 repair as a theorem over histories: from a failed enable (divider) request until the next acknowledged one,
+    EVERY enable (divider) request the client builds is the full requested vector — never the single-channel form, which
+    would leave a half-applied earlier request in place. -/
+theorem doubt_forces_full_vector (d0 : Device) (flags : Nat) (ops1 ops2 : List Op) (a b : Outcome) (hd : WFDev d0)
+    (ha : Info.ackSupported flags = true) (hn : d0.en.length ≠ 0) :
+    (b ≠ .ack → (∀ op ∈ ops2, NoAckEn op) →
+      enRequest (after d0 flags (ops1 ++ .write a b :: ops2)).1 =
+        .vec (after d0 flags (ops1 ++ .write a b :: ops2)).1.enNew) ∧
+    (Info.divSupported flags = true → a ≠ .ack → (∀ op ∈ ops2, NoAckDiv op) →
+      divRequest (after d0 flags (ops1 ++ .write a b :: ops2)).1 =
+        .vec (after d0 flags (ops1 ++ .write a b :: ops2)).1.divNew) := by
+  have hf := foldl_fixed (Client.init d0 flags) ops1
+  have hn1 : (ops1.foldl cliSpec (Client.init d0 flags)).n ≠ 0 := by rw [hf.1]; exact hn
+  have ha1 : (ops1.foldl cliSpec (Client.init d0 flags)).ackSupported = true := hf.2.2.trans ha
+  refine ⟨fun hb h2 => enRequest_vec _ ?_, fun hs hb h2 => divRequest_vec _ ?_⟩
+  · rintro ⟨-, hr⟩
+    rw [client_is_fold d0 flags _ hd, List.foldl_append, List.foldl_cons,
+      foldl_keepDoubtEn _ ops2 ((cliSpec_fixed _ _).2.2.trans ha1) h2 (cliSpec_failEn _ a b hn1 ha1 hb)] at hr
+    nomatch hr
+  · rintro ⟨-, hr⟩
+    rw [client_is_fold d0 flags _ hd, List.foldl_append, List.foldl_cons,
+      foldl_keepDoubtDiv _ ops2 ((cliSpec_fixed _ _).2.2.trans ha1) h2
+        (cliSpec_failDiv _ a b hn1 ha1 (hf.2.1.trans hs) hb)] at hr
+    nomatch hr
+
+/-- `later_write_converges` against the independent fold: after ANY history of acknowledged, rejected, lost and half-lost
+    requests, a write the device acknowledges leaves device = client = the pointwise fold of the SETTER calls over the
+    state at connect time (the writes and their outcomes erased from the history). -/
+theorem later_write_converges_to_setter_fold (d0 : Device) (flags : Nat) (ops : List Op) (hd : WFDev d0)
+    (ha : Info.ackSupported flags = true) :
+    let r := after d0 flags (ops ++ [.write .ack .ack])
+    let req := reqOf ((ops.filter notWrite).foldl cliSpec (Client.init d0 flags))
+    r.2.1.en = req.1 ∧ r.1.enNow = req.1 ∧ r.1.copyEn = req.1 ∧
+    (Info.divSupported flags = true → r.2.1.div = req.2 ∧ r.1.divNow = req.2 ∧ r.1.copyDiv = req.2) := by
+  intro r req
+  have hw := later_write_converges d0 flags ops hd ha
+  have hr : reqOf r.1 = req := by
+    show reqOf (after d0 flags (ops ++ [.write .ack .ack])).1 = _
+    rw [client_is_fold d0 flags _ hd]
+    have hf : (ops ++ [Op.write .ack .ack]).filter notWrite = ops.filter notWrite := by
+      rw [List.filter_append]; simp [notWrite]
+    show _ = reqOf ((ops.filter notWrite).foldl cliSpec (Client.init d0 flags))
+    rw [← hf]
+    exact foldl_req_erase _ _ _ rfl
+  have h1 : r.1.enNew = req.1 := congrArg Prod.fst hr
+  have h2 : r.1.divNew = req.2 := congrArg Prod.snd hr
+  refine ⟨hw.1.trans h1, hw.2.1.trans h1, hw.2.2.1.trans h1, fun hs => ?_⟩
+  obtain ⟨e1, e2, e3⟩ := hw.2.2.2 hs
+  exact ⟨e1.trans h2, e2.trans h2, e3.trans h2⟩
+
+/-- `bounded` over histories: the time a whole history waits for the device is at most two ACK time-outs per write, for
+    every history, every state and every behaviour of the device (setter calls wait for nothing). -/
+theorem history_time_bounded (c : Client) (d : Device) (ops : List Op) :
+    totalTime (Config.run c d ops).2.2 ≤ 20 * nWrites ops :=
+  run_time c d ops
+
+/-- non-vacuity of the round-7 additions: a history with an accepted enable request followed by rejected / lost / half-lost
+    ones and setter calls — the view stays at the accepted vector, the device moved only where a request was applied -/
+example :
+    let ops1 : List Op := [.enable [0, 1], .divider [2] 7]
+    let ops2 : List Op := [.disable [1], .write (.nack 3) .lost, .enableAll, .write .lost .appliedAckLost, .divider [0] 9]
+    (∀ op ∈ ops2, NoAckEn op) ∧ (∀ op ∈ ops2, NoAckDiv op) ∧
+    (after ⟨[false, false, false], [0, 0, 0]⟩ 3 (ops1 ++ .write .ack .ack :: ops2)).1.enNow = [true, true, false] ∧
+    (after ⟨[false, false, false], [0, 0, 0]⟩ 3 (ops1 ++ .write .ack .ack :: ops2)).1.divNow = [0, 0, 7] ∧
+    (after ⟨[false, false, false], [0, 0, 0]⟩ 3 (ops1 ++ .write .ack .ack :: ops2)).2.1.en = [true, true, true] ∧
+    (after ⟨[false, false, false], [0, 0, 0]⟩ 3 (ops1 ++ .write .ack .ack :: ops2)).1.enResync = true := by
+  refine ⟨?_, ?_, ?_⟩
+  · intro op h
+    simp only [List.mem_cons, List.not_mem_nil, or_false] at h
+    rcases h with rfl | rfl | rfl | rfl | rfl <;> first | trivial | (intro h; cases h)
+  · intro op h
+    simp only [List.mem_cons, List.not_mem_nil, or_false] at h
+    rcases h with rfl | rfl | rfl | rfl | rfl <;> first | trivial | (intro h; cases h)
+  · decide +kernel
+
+example : (∀ op ∈ ([.write (.nack 1) .lost, .enable [0], .write .lost (.nack (-5))] : List Op), NoApply op) ∧
+    totalTime (after ⟨[false], [0]⟩ 3 [.write (.nack 1) .lost, .enable [0], .write .lost (.nack (-5))]).2.2 = 20 ∧
+    nWrites [.write (.nack 1) .lost, .enable [0], .write .lost (.nack (-5))] = 2 := by
+  refine ⟨?_, by decide +kernel, rfl⟩
+  intro op h
+  simp only [List.mem_cons, List.not_mem_nil, or_false] at h
+  rcases h with rfl | rfl | rfl <;> first | trivial | exact ⟨rfl, rfl⟩
+
+/-- why the theorems above assume ACK support: on a device that does NOT advertise it, every request counts as
+    acknowledged at once, so after every write the client reports the requested state — whatever became of the requests
+    (the `example` below: both requests lost, client and device differ).  ∀ history, outcomes. -/
+theorem without_ack_support_view_advances_blindly (d0 : Device) (flags : Nat) (ops : List Op) (a b : Outcome)
+    (hd : WFDev d0) (ha : Info.ackSupported flags = false) (hn : d0.en.length ≠ 0) :
+    let r := after d0 flags (ops ++ [.write a b])
+    r.1.enNow = r.1.enNew ∧ r.1.copyEn = r.1.enNew ∧ r.1.enResync = false ∧
+    (Info.divSupported flags = true → r.1.divNow = r.1.divNew ∧ r.1.copyDiv = r.1.divNew ∧ r.1.divResync = false) := by
+  intro r
+  have hr : r.1 = cliSpec (ops.foldl cliSpec (Client.init d0 flags)) (.write a b) := by
+    show (after d0 flags (ops ++ [.write a b])).1 = _
+    rw [client_is_fold d0 flags _ hd, List.foldl_append]; rfl
+  have hf := foldl_fixed (Client.init d0 flags) ops
+  generalize ops.foldl cliSpec (Client.init d0 flags) = c at hr hf
+  have hn1 : c.n ≠ 0 := by rw [hf.1]; exact hn
+  have hs : ∀ o, seen c o = true := by
+    intro o; unfold seen; rw [hf.2.2]
+    show (!Info.ackSupported flags || _) = true
+    rw [ha]; rfl
+  have hd2 : (Client.init d0 flags).divSupported = Info.divSupported flags := rfl
+  rw [hr, cliSpec_write, if_neg hn1, hs a, hs b, hf.2.1, hd2]
+  cases hds : Info.divSupported flags with
+  | false => exact ⟨rfl, rfl, rfl, fun x => nomatch x⟩
+  | true => exact ⟨rfl, rfl, rfl, fun _ => ⟨rfl, rfl, rfl⟩⟩
+
+example : Info.ackSupported 1 = false ∧
+    (after ⟨[false, false], [0, 0]⟩ 1 [.enable [0], .write .lost .lost]).1.enNow = [true, false] ∧
+    (after ⟨[false, false], [0, 0]⟩ 1 [.enable [0], .write .lost .lost]).2.1.en = [false, false] := by decide +kernel
+
+/-! ### start / stop requests over histories -/
+
+/-- the stream state asked for by the APPLIED start / stop requests of a history (the last one wins; rejected and lost
+    requests do not count) -/
+def appliedStream (init : Bool) (hist : List (CommCall × Ans)) : Bool :=
+  hist.foldl (fun s c => if applies c.2.st then decide (c.1 = .streamStart) else s) init
+
+/-- over ANY history of low-level `stream_start()` / `stream_stop()` calls — each acknowledged, rejected with any code,
+    applied with the ACK lost, or lost; from any world — the device streams exactly as the applied requests say
+    (rejected / lost ones never count), the channel state the client reports, the device's channel configuration and
+    the reported description are untouched, and the whole history waits at most one ACK time-out per call. -/
+theorem startStop_history (w : World) (hist : List (CommCall × Ans))
+    (h : ∀ c ∈ hist, c.1 = .streamStart ∨ c.1 = .streamStop) :
+    (commRun w hist).1.devStarted = appliedStream w.devStarted hist ∧
+    (commRun w hist).1.cli = w.cli ∧ (commRun w hist).1.dev = w.dev ∧ (commRun w hist).1.reported = w.reported ∧
+    (commRun w hist).1.time ≤ w.time + 10 * hist.length := by
+  induction hist generalizing w with
+  | nil => exact ⟨rfl, rfl, rfl, rfl, Nat.le_refl _⟩
+  | cons c r ih =>
+    obtain ⟨call, a⟩ := c
+    have hr : ∀ c ∈ r, c.1 = .streamStart ∨ c.1 = .streamStop := fun x hx => h x (List.mem_cons_of_mem _ hx)
+    have key : ∀ s : Bool, call = (if s then CommCall.streamStart else .streamStop) →
+        (commStep w call a).1 = (commStartReq w s a.st).1 := by
+      intro s hs; subst hs; cases s <;> rfl
+    have hc : ∃ s : Bool, call = (if s then CommCall.streamStart else .streamStop) ∧
+        decide (call = .streamStart) = s := by
+      rcases h (call, a) (List.mem_cons_self ..) with e | e
+      · exact ⟨true, e, by rw [show call = .streamStart from e]; rfl⟩
+      · exact ⟨false, e, by rw [show call = .streamStop from e]; rfl⟩
+    obtain ⟨s, hs, hdec⟩ := hc
+    rw [commRun_cons]
+    dsimp only
+    rw [key s hs]
+    obtain ⟨i1, i2, i3, i4, i5⟩ := ih (commStartReq w s a.st).1 hr
+    have ht := (commStartReq_time w s a.st).2
+    refine ⟨?_, i2, i3, i4, ?_⟩
+    · rw [i1]
+      show appliedStream (if applies a.st then s else w.devStarted) r = _
+      unfold appliedStream
+      rw [List.foldl_cons]
+      dsimp only
+      rw [hdec]
+    · rw [List.length_cons]; omega
+
+example :
+    let w := afterC ⟨[true, false], [0, 0]⟩ false 3 (Desc.plain 2) [(.connect, {})]
+    let hist : List (CommCall × Ans) :=
+      [(.streamStart, {}), (.streamStop, ⟨.nack 7, .ack, .ack⟩), (.streamStop, ⟨.lost, .ack, .ack⟩),
+       (.streamStop, ⟨.appliedAckLost, .ack, .ack⟩), (.streamStart, ⟨.nack (-1), .ack, .ack⟩)]
+    appliedStream w.devStarted hist = false ∧ (commRun w hist).1.devStarted = false ∧
+    (commRun w hist).1.time = w.time + 20 := by decide +kernel
 
 end Nxs.C11
